@@ -421,6 +421,208 @@ def run(ctx):
     if not (0 <= t.yaw < 360):
         ctx.violation('yaw %r after applying an absolute yaw of -1e-20 is not in [0, 360)' % t.yaw,
                       {'yaw_in': -1e-20, 'yaw_out': t.yaw}, key={'kind': 'float-wrap', 'yaw': '-1e-20'})
+    mapset_tie(ctx)
+    live_tie(ctx)
+
+
+def live_tie(ctx):
+    """Tie of Model/C20Live.lean (driver `pyand`/`pyor`, `bitnamez`, `poslookf`, `plistfull`): Python's `&` / `|`
+    on arbitrary ints; `name_from_value` of a freshly built BitFieldEnum subclass with arbitrary (also negative /
+    zero / repeated) member values and member names of every case shape; PlayerPositionAndLookPacket.apply of a
+    subclass with arbitrary FLAG_REL_* attributes, any int `flags`, Fraction coordinates; `players_by_uuid.items()`
+    after histories of PlayerListItemPackets with all six slots (properties and signatures included)."""
+    from minecraft.networking.packets import clientbound
+    from minecraft.networking import types as T
+    rng = ctx.rng
+    lines, want, what = [], [], []
+
+    def add(line, w, wh):
+        lines.append(line)
+        want.append(w)
+        what.append(wh)
+
+    def rint():
+        x = rng.random()
+        if x < 0.3:
+            return rng.randrange(-9, 300)
+        if x < 0.6:
+            return rng.choice([1, -1]) * (1 << rng.randrange(0, 70)) + rng.choice([-1, 0, 0, 1])
+        return rng.randrange(-2 ** 66, 2 ** 66) if x < 0.8 else rng.randrange(-2 ** 31, 2 ** 31)
+    # ---- pyand / pyor
+    for _ in range(ctx.scale(300, 5000)):
+        a, b = rint(), rint()
+        add('pyand %d %d' % (a, b), 'ok %d' % (a & b), 'a & b')
+        add('pyor %d %d' % (a, b), 'ok %d' % (a | b), 'a | b')
+    # ---- bitnamez
+    NAMES = ['A', 'B', 'C', 'D', 'F0', 'F1', 'AB', 'A_B', '_X', 'X_', 'lower', 'Mixed', 'mIXED', '_', '_1', 'x9', 'ZZ9']
+    for k in range(ctx.scale(60, 900)):
+        names = rng.sample(NAMES, rng.randrange(0, 7))
+        small = rng.random() < 0.7
+        mem = {}
+        for n in names:
+            mem[n] = rng.choice([0, 1, 2, 4, 8, 3, 5, 6, 16, 255, -1, -2, -4, rng.randrange(-40, 300)]) if small else rint()
+        cls = type('LiveEnum%d' % k, (T.BitFieldEnum,), dict(mem))
+        mtok = ','.join('%s:%d' % (n, v) for n, v in mem.items()) or '-'
+        vals = set(rng.choice(list(mem.values()) + [0]) | rng.choice(list(mem.values()) + [0]) for _ in range(4))
+        vals |= {0, -1, rng.randrange(-16, 64), rint()}
+        for v in sorted(vals):
+            name = cls.name_from_value(v)
+            add('bitnamez %s %d' % (mtok, v), 'ok ' + ('~' if name is None else name), 'BitFieldEnum.name_from_value')
+    # ---- poslookf
+    PPL = clientbound.play.PlayerPositionAndLookPacket
+    FL = ('FLAG_REL_X', 'FLAG_REL_Y', 'FLAG_REL_Z', 'FLAG_REL_YAW', 'FLAG_REL_PITCH')
+
+    def rfrac():
+        return Fraction(rng.choice([0, 1, -1, 90, 359, 360, 361, 720, -360, -1234, 10 ** 6, rng.randrange(-4000, 4000)]),
+                        rng.choice([1, 1, 1, 2, 4, 3, 7, 360, 1000]))
+    live_tab = [int(getattr(PPL, n)) for n in FL]
+    for k in range(ctx.scale(150, 2500)):
+        x = rng.random()
+        if x < 0.4:
+            tab = live_tab
+        elif x < 0.8:
+            tab = [rng.choice([0, 1, 2, 4, 8, 16, 32, 3, 24, -1, -2, 1 << 40]) for _ in FL]
+        else:
+            tab = [rint() for _ in FL]
+        cls = type('LivePPL%d' % k, (PPL,), dict(zip(FL, tab)))
+        flags = rng.choice([rng.randrange(32), rng.randrange(-128, 128), rint()])
+        pk, cur = [rfrac() for _ in range(5)], [rfrac() for _ in range(5)]
+        p = cls()
+        p.x, p.y, p.z, p.yaw, p.pitch = pk
+        p.flags = flags
+        t = T.PositionAndLook(x=cur[0], y=cur[1], z=cur[2], yaw=cur[3], pitch=cur[4])
+        p.apply(t)
+        add('poslookf %s %d %s %s' % (','.join(map(str, tab)), flags, ' '.join(frac(v) for v in pk), ' '.join(frac(v) for v in cur)),
+            'ok %s %s %s %s %s' % tuple(frac(v) for v in (t.x, t.y, t.z, t.yaw, t.pitch)), 'PlayerPositionAndLookPacket.apply')
+    # ---- plistfull
+    PLI = clientbound.play.PlayerListItemPacket
+    STR = ['', 'al', 'bob', u'Zo\xeb', 'textures', 'dGV4', u'€ sig']
+
+    def props_tok(props):
+        return ';'.join('%s,%s,%s' % (h(p.name), h(p.value), h(p.signature)) for p in props) or '-'
+    for k in range(ctx.scale(100, 1500)):
+        pl = PLI.PlayerList()
+        toks = []
+        uuids = [0, 1, 2, 3, -1, 2 ** 127 - 1, -2 ** 70]
+        for _ in range(rng.randrange(1, 8)):
+            acts = []
+            kind = rng.randrange(5)
+            for _ in range(rng.randrange(0, 6)):
+                u = rng.choice(uuids)
+                if kind == 0:
+                    props = [PLI.PlayerProperty(name=rng.choice(STR), value=rng.choice(STR), signature=rng.choice([None, None] + STR))
+                             for _ in range(rng.choice([0, 0, 1, 2, 3]))]
+                    a = PLI.AddPlayerAction(uuid=u, name=rng.choice(STR), properties=props, gamemode=rng.randrange(-1, 5),
+                                            ping=rng.choice([0, 17, 250, -1, 2 ** 31 - 1]), display_name=rng.choice([None, None] + STR))
+                    toks.append('add:%d:%s:%s:%d:%d:%s' % (u, h(a.name), props_tok(props), a.gamemode, a.ping, h(a.display_name)))
+                elif kind == 1:
+                    a = PLI.UpdateGameModeAction(uuid=u, gamemode=rng.randrange(-1, 5))
+                    toks.append('gm:%d:%d' % (u, a.gamemode))
+                elif kind == 2:
+                    a = PLI.UpdateLatencyAction(uuid=u, ping=rng.choice([0, 5, 99, -1, 2 ** 31 - 1]))
+                    toks.append('lat:%d:%d' % (u, a.ping))
+                elif kind == 3:
+                    a = PLI.UpdateDisplayNameAction(uuid=u, display_name=rng.choice([None] + STR))
+                    toks.append('dn:%d:%s' % (u, h(a.display_name)))
+                else:
+                    a = PLI.RemovePlayerAction(uuid=u)
+                    toks.append('rm:%d' % u)
+                acts.append(a)
+            PLI(action_type=type(acts[0]) if acts else PLI.AddPlayerAction, actions=acts).apply(pl)
+            toks.append('|')
+        got = ' '.join(['ok'] + ['%d=%d:%s:%s:%d:%d:%s' % (key, it.uuid, h(it.name), props_tok(it.properties), it.gamemode, it.ping,
+                                                          h(it.display_name)) for key, it in pl.players_by_uuid.items()])
+        add('plistfull ' + ' '.join(toks), got, 'PlayerListItemPacket.apply (all slots)')
+    for line, mo, w, wh in zip(lines, ctx.driver.ask(lines), want, what):
+        op = line.split()[0]
+        ctx.case(('c20live', line), sample={'op': op, 'request': line[:140], 'impl': w[:100]} if op in ('poslookf', 'plistfull', 'bitnamez') else None)
+        ctx.count('live_tie.' + op)
+        if mo.rstrip() != w:
+            ctx.disagree('%s vs %s' % (op, wh), line[:700], mo[:400], w[:400])
+    ctx.extra['c20live_pairs'] = ctx.extra.get('c20live_pairs', 0) + len(lines)
+
+
+def mapset_tie(ctx):
+    """Tie of Model/C20Maps.lean (driver `mapset`): a MapSet built from `Map(id, width=, height=)` objects, a
+    history of MapPackets applied with the real `apply_to_map_set` until one raises; compared: the items of
+    `maps_by_id` in dict order (key, id, scale, flags, size, len(pixels), icons, runs of non-zero pixels) and
+    whether / that an exception stopped the replay (IndexError / ZeroDivisionError = `err:other`)."""
+    from minecraft.networking.packets import clientbound as cb
+    MP = cb.play.MapPacket
+    rng = ctx.rng
+
+    def hexs(s):
+        return hx(s.encode('utf-8'))
+
+    def show_icons(icons):
+        return ','.join('%d.%d.%d.%d.%s' % (ic.type, ic.direction, ic.location[0], ic.location[1],
+                                            '~' if ic.display_name is None else hexs(ic.display_name))
+                        for ic in icons) or '-'
+
+    def runs(px):
+        out = []
+        for i, b in enumerate(px):
+            if not b:
+                continue
+            if out and out[-1][0] + out[-1][1] == i and out[-1][2] == b:
+                out[-1][1] += 1
+            else:
+                out.append([i, 1, b])
+        return ','.join('%d*%d=%d' % tuple(r) for r in out) or '-'
+
+    def show_map(key, m):
+        opt = lambda v: '~' if v is None else '%d' % v
+        return '%d:%s:%s:%d:%d:%d:%d:%d:%s:%s' % (key, opt(m.id), opt(m.scale), bool(m.is_tracking_position), bool(m.is_locked),
+                                                  m.width, m.height, len(m.pixels), show_icons(m.icons), runs(bytes(m.pixels)))
+
+    def rnd_icons():
+        return [MP.MapIcon(rng.randrange(0, 30), rng.randrange(0, 16), (rng.randrange(-128, 128), rng.randrange(-128, 128)),
+                           rng.choice([None, None, '', 'a', 'Home base', u'h\xe9 €']))
+                for _ in range(rng.choice([0, 0, 1, 2, 3]))]
+    reqs, want = [], []
+    for case in range(ctx.scale(250, 4000)):
+        ids = rng.sample([0, 1, 2, 3, 7, -1, 2 ** 31 - 1, -2 ** 31], rng.randrange(1, 4))
+        init = []
+        for _ in range(rng.randrange(0, 4)):
+            init.append((rng.choice(ids), rng.randrange(0, 9), rng.randrange(0, 7)))      # duplicate ids: the later Map wins
+        if rng.random() < 0.1:
+            init.append((rng.choice(ids), 128, 128))
+        ms = MP.MapSet(*[MP.Map(i, width=w, height=h) for i, w, h in init])
+        toks, err = [], None
+        for _ in range(rng.randrange(0, 6)):
+            p = MP()
+            p.map_id = rng.choice(ids) if rng.random() < 0.9 else rng.randrange(-5, 50)
+            p.scale = rng.randrange(-128, 128)
+            p.icons = rnd_icons()
+            p.is_tracking_position, p.is_locked = rng.random() < 0.5, rng.random() < 0.5
+            x = rng.random()
+            if x < 0.2:                      # no pixel patch (what `read` produces for width 0)
+                p.width, p.height, p.offset, p.pixels = 0, 0, (0, 0), None
+            else:
+                p.width = rng.choice([0, 1, 1, 2, 3, 4, 8, 255]) if x < 0.9 else rng.randrange(0, 256)
+                p.height = rng.randrange(0, 5)
+                n = rng.choice([p.width * p.height, p.width * p.height, rng.randrange(0, 12), 0, 1])
+                p.pixels = bytearray(rng.choice([0, 1, 1, 2, 255, rng.randrange(256)]) for _ in range(min(n, 40)))
+                p.offset = (rng.choice([0, 0, 1, 2, 5, -1, -2, 127, -128, rng.randrange(-128, 128)]),
+                            rng.choice([0, 0, 1, 2, 5, -1, 127, -128, rng.randrange(-128, 128)]))
+            toks.append('%d:%d:%d:%d:%d:%d:%d:%d:%s:%s' % (
+                p.map_id, p.scale, p.is_tracking_position, p.is_locked, p.width, p.height, p.offset[0], p.offset[1],
+                '~' if p.pixels is None else hx(p.pixels), show_icons(p.icons)))
+            if err is None:                  # the model stops at the first exception; later tokens are still sent
+                try:
+                    p.apply_to_map_set(ms)
+                except (IndexError, ZeroDivisionError):
+                    err = 'other'
+                except Exception as e:
+                    err = type(e).__name__
+        reqs.append('mapset %s %s' % (','.join('%d.%d.%d' % t for t in init) or '-', ' '.join(toks)))
+        want.append(' '.join([('err:' + err) if err else 'ok'] + [show_map(k, m) for k, m in ms.maps_by_id.items()]))
+    for line, mo, w in zip(reqs, ctx.driver.ask(reqs), want):
+        ctx.case(('mapset', line), sample={'op': 'mapset', 'request': line[:160], 'impl': w[:160]})
+        ctx.count('mapset.' + w.split()[0])
+        if mo.rstrip() != w:
+            ctx.disagree('mapset: apply_to_map_set history', line[:900], mo[:600], w[:600])
+    ctx.extra['c20mapset_pairs'] = ctx.extra.get('c20mapset_pairs', 0) + len(reqs)
 
 
 def replay(ctx, rp):
